@@ -123,7 +123,7 @@ INVARIANT Agree
     vlib.log(f"[tlc] OptParseMachine (<= {deep_len}, {len(deep_tabs)} tables): {r.distinct} distinct states, {r.wall:.1f}s")
     ev["states"] += r.distinct
     ev["transitions"] += r.generated
-    spell_tabs = [c[0] for c in CORE[:4]] if tier == "quick" else [c[0] for c in CORE]
+    spell_tabs = [c[0] for c in CORE[:4]] if tier == "quick" else [c[0] for c in CORE[:6]]
     max_opts = 2 if tier == "quick" else 3
     cfg = write_cfg(os.path.join(wd, "mc_spell.cfg"), f"""SPECIFICATION Spec
 CONSTANTS
